@@ -20,14 +20,15 @@ import (
 func die(f string, a ...any) { fmt.Fprintf(os.Stderr, "gen: "+f+"\n", a...); os.Exit(2) }
 
 type env struct {
-	strs map[string]string // string constants
-	ints map[string]int64  // integer constants (record types), version ids as "V1_0.id"
+	strs  map[string]string   // string constants
+	ints  map[string]int64    // integer constants (record types), version ids as "V1_0.id"
+	exprs map[string]ast.Expr // named constants / variables defined by an expression, evaluated on demand
 }
 
 func loadEnv(repo string) (*env, map[string]*ast.File, *token.FileSet) {
 	fset := token.NewFileSet()
 	files := map[string]*ast.File{}
-	e := &env{strs: map[string]string{}, ints: map[string]int64{}}
+	e := &env{strs: map[string]string{}, ints: map[string]int64{}, exprs: map[string]ast.Expr{}}
 	matches, _ := filepath.Glob(filepath.Join(repo, "*.go"))
 	for _, m := range matches {
 		if strings.HasSuffix(m, "_test.go") || strings.HasPrefix(filepath.Base(m), "zz_verif") {
@@ -61,6 +62,8 @@ func loadEnv(repo string) (*env, map[string]*ast.File, *token.FileSet) {
 							x, _ := strconv.ParseInt(v.Value, 0, 64)
 							e.ints[n.Name] = x
 						}
+					case *ast.BinaryExpr, *ast.ParenExpr, *ast.Ident, *ast.SelectorExpr:
+						e.exprs[n.Name] = vs.Values[i]
 					case *ast.UnaryExpr: // V1_0 = &WarcVersion{id: 1, ...}
 						if cl, ok := v.X.(*ast.CompositeLit); ok {
 							for _, el := range cl.Elts {
@@ -93,6 +96,12 @@ func (e *env) evalInt(x ast.Expr) int64 {
 	case *ast.Ident:
 		n, ok := e.ints[v.Name]
 		if !ok {
+			if x, ok2 := e.exprs[v.Name]; ok2 {
+				delete(e.exprs, v.Name) // no cycles
+				n = e.evalInt(x)
+				e.ints[v.Name] = n
+				return n
+			}
 			die("unknown int constant %s", v.Name)
 		}
 		return n
@@ -113,6 +122,14 @@ func (e *env) evalInt(x ast.Expr) int64 {
 			return a & b
 		case token.ADD:
 			return a + b
+		case token.SUB:
+			return a - b
+		case token.AND_NOT:
+			return a &^ b
+		case token.XOR:
+			return a ^ b
+		case token.SHL:
+			return a << uint(b)
 		}
 	case *ast.ParenExpr:
 		return e.evalInt(v.X)
